@@ -166,8 +166,15 @@ func Heap(r *rand.Rand) *Doc {
 	for i := 0; i < n; i++ {
 		rc := hrec{}
 		rc.ic = int64(r.Intn(4))
+		if r.Intn(4) == 0 {
+			rc.ic = int64(r.Intn(100000)) // many objects ...
+		}
 		if rc.ic > 0 {
-			rc.ib = rc.ic * int64(1+r.Intn(5000))
+			per := int64(1 + r.Intn(5000))
+			if r.Intn(3) == 0 {
+				per = int64(1 + r.Intn(40)) // ... and small ones: the unsampling factor is far from 1 unless the rate is <= 1
+			}
+			rc.ib = rc.ic * per
 		}
 		rc.ac = rc.ic + int64(r.Intn(3))
 		if rc.ac > 0 {
